@@ -29,6 +29,9 @@ type Atom struct {
 	Lit  string // ALit bytes / AContract name
 	N    int    // AFix width / ASlot index
 	Src  string // provenance note (variable / callee)
+	// Val: for Fix atoms produced by GetUint64Bytes(x)/GetUint32Bytes(x), the
+	// encoded value x expressed in the querying function's terms (nil if lost).
+	Val ssa.Value
 }
 
 func (a Atom) String() string {
@@ -259,6 +262,14 @@ func (e *ksEngine) subst(s KeyShape, args []ssa.Value) KeyShape {
 			}
 			continue
 		}
+		if p, ok := a.Val.(*ssa.Parameter); ok {
+			a.Val = nil
+			for i, q := range p.Parent().Params {
+				if q == p && i < len(args) {
+					a.Val = ir.Strip(args[i])
+				}
+			}
+		}
 		out = append(out, a)
 	}
 	return out
@@ -389,9 +400,9 @@ func (e *ksEngine) shape(v ssa.Value, d int) KeyShape {
 			}
 			return out
 		case callee == e.u64:
-			return KeyShape{{Kind: AFix, N: 8}}
+			return KeyShape{{Kind: AFix, N: 8, Val: ir.Strip(args[0])}}
 		case callee == e.u32:
-			return KeyShape{{Kind: AFix, N: 4}}
+			return KeyShape{{Kind: AFix, N: 4, Val: ir.Strip(args[0])}}
 		}
 		// methods returning fixed-size digests
 		if n, ok := fixedResult(callee); ok {
